@@ -180,6 +180,15 @@ func (*c03) Gen(rng *RNG, tier string) []Case {
 			"mem getblob " + tok("a") + " " + tok(sha256Digest([]byte(big))),
 		}}))
 	}
+	// multi-megabyte manifests (no size is too large to carry): on their own, the model sits these out
+	for _, size := range []int{4<<20 - 1, 4 << 20, 4<<20 + 1, 6 << 20} {
+		cases = append(cases, Case{Tag: "huge-manifest", Lines: []string{
+			"wire init 0 1 0000 0 0",
+			fmt.Sprintf("mem bigpush %s %s %d %s", tok("a"), tok("huge"), size, tok(mtOpaque)),
+			fmt.Sprintf("mem bigget %s %s", tok("a"), tok("huge")),
+			fmt.Sprintf("mem biggetd %s %d", tok("a"), size),
+		}})
+	}
 	// large manifests on both sides of the client's in-memory threshold (only with the digest omitted does it matter)
 	for _, size := range []int{128*1024 - 1, 128 * 1024, 128*1024 + 1} {
 		data := []byte(strings.Repeat("m", size))
